@@ -246,6 +246,28 @@ def r09d(ctx):
                     f"key namespace `{ptxt}` is determined by {sorted(D) or 'constants'} only, but the tasks stored under it also depend on "
                     f"{missing}: two {c.name} expressions that differ in {missing} over the same input define different tasks under the same key",
                 )
+        # namespaces handed to a helper whose result is merged into the layer: name must cover the helper's other arguments
+        local_prefixes = {d.name for d in lf.defs.all if d.value is not None and d.kind == "assign" and _is_string_build(d.value)}
+        for call in (x for x in iter_body_nodes(fn) if isinstance(x, ast.Call)):
+            if is_self_attr(call.func) or not isinstance(call.func, (ast.Name, ast.Attribute)):
+                continue
+            ns_args = [a for a in call.args if isinstance(a, ast.Name) and a.id in local_prefixes]
+            if not ns_args:
+                continue
+            for a in ns_args:
+                n += 1
+                cid = f"{qual(c, fn)}:namespace-arg:{a.id}->{dotted(call.func)}"
+                D = lf.reads(a, at=call)
+                T = set()
+                for o in list(call.args) + [k.value for k in call.keywords]:
+                    if o is not a:
+                        T |= lf.reads(o, at=call)
+                T.discard(ALL)
+                loc = c.module.loc(call)
+                if ALL in D or not (T - D):
+                    ctx.ok(cid, loc, "namespace covers the helper's other arguments")
+                else:
+                    ctx.bad(cid, loc, f"namespace `{a.id}` (determined by {sorted(D) or 'constants'}) is handed to {dotted(call.func)}(...) together with arguments depending on {sorted(T - D)}: the helper's tasks differ between expressions that share {sorted(D)} but are stored under the same keys")
     ctx.floor("internal key namespaces", n, 15)
 
 
